@@ -23,18 +23,33 @@ SCOPE = {
              "seeded models of 2-6 assets): generate twice on the same objects and once on fresh ones; inputs compared "
              "with snapshots; wrapper from .mar for every pair (coreLang: 12), from .mal instead for a third of the tiny ones, called twice for a quarter; "
              "fresh processes: 9 batches of 10 tiny pairs x {direct, .mar wrapper, .mal wrapper} + 3 coreLang batches of 3 x "
-             "{direct, .mar wrapper}, each under PYTHONHASHSEED 0 and 1 and compared with this process",
+             "{direct, .mar wrapper}, each under PYTHONHASHSEED 0 and 1 and compared with this process; "
+             "+ a language whose steps / defense carry 2-5 tags each (also inherited, '+>' and '->' in a sub-type) x 250 seeded "
+             "models, 2 fresh-process batches of 10 such pairs x 3 routes under PYTHONHASHSEED 0, 1, 2 (the serialised tags "
+             "list is order-sensitive); "
+             "+ REVISIONS: for each tiny language a second specification with the same #id / #version and the same asset / "
+             "step / variable names but other variable definitions, fewer reaches expressions, reversed tags (6 revisions x 60 "
+             "models of 3-6 assets as pairs); HISTORY batches: 16 pairs alternating a language and its revision on the same 8 models, in one "
+             "fresh process in sequence, compared pair by pair with each pair generated in a process state of its own (6 "
+             "batches x {direct, .mar}); every fresh-process batch is also compared with such one-pair-per-process runs; "
+             "+ every pair: two graphs generated back to back from the same language graph and Model object, attackers "
+             "attached and analysis run on the FIRST one, then on the second: both serialise like the graph generated alone, "
+             "and every node / attacker reachable from a graph (children, parents, attackers' entry points and reached "
+             "steps, compromised_by) is an object of that graph",
     "thorough": "same languages x 2500 models of 1-6 assets, coreLang x 400 models of 2-8 assets, wrapper for all; 60 batches "
                 "x PYTHONHASHSEED {0,1,2,random}",
 }
 EXHAUSTIVE = {"quick": False, "thorough": False}
-RULE = ("case = (language, model recipe, file formats) or a batch of such pairs for the fresh-process clause; non-trivial "
+RULE = ("case = (language or language revision, model recipe, file formats) or a batch (ordered sequence) of such pairs for "
+        "the fresh-process / history clause; non-trivial "
         "when the generated graph has at least one edge; distinct = distinct (language, model)")
 ASSUMPTIONS = ["two serialisations are compared as json.dumps(graph._to_dict()) strings without key sorting (key order counts)",
                "a generation that raises is an outcome ('exception: <type>') compared like a graph",
                "the wrapper's side files (log_configs langspec_file / model_file) are redirected into a temp dir",
                ".mal variant only where MalCompiler().compile(emitted text) reproduces the langspec dict exactly",
-               "child interpreters: same floor file with --child, cwd = temp dir, PYTHONPATH inherited"]
+               "child interpreters: same floor file with --child, cwd = temp dir, PYTHONPATH inherited",
+               "'a process state of its own' for one pair = a fork of a fresh interpreter that has imported maltoolbox and has "
+               "not constructed or generated anything yet (equivalent to a fresh process for module-level state; same hash seed)"]
 BUDGET_S = {"quick": 95, "thorough": 1500}
 CHUNK = 1
 
@@ -65,7 +80,7 @@ def load_spec(name):
 
 
 def cases(tier, seed):
-    allc = list(_cases(tier, seed))
+    allc = list(_cases(tier, seed)) + list(_cases_more(tier, seed))
     procs = [c for c in allc if c["kind"] == "procs"]
     for c in procs:                      # the slow ones first so that they overlap with the rest
         yield c
@@ -113,6 +128,45 @@ def _cases(tier, seed):
             yield {"kind": "procs", "pairs": batch, "vias": [via], "seeds": seeds}
 
 
+MORE = ["tags"]                              # languages added after the first enumeration (own random stream)
+
+
+def _cases_more(tier, seed):
+    rnd = random.Random(seed + 7919)
+    quick = tier == "quick"
+    n_tiny, n_rev = (250, 60) if quick else (2500, 600)
+    seeds = [0, 1, 2] if quick else [0, 1, 2, 3, "random"]
+    # several tags per step
+    for ln in MORE:
+        spec = load_spec(ln)
+        pairs = []
+        for k in range(n_tiny):
+            m = L.random_model_recipe(spec, rnd, rnd.randint(1, 4 if quick else 6), rnd.choice((0.3, 0.6, 0.9)),
+                                      attackers=rnd.randint(0, 2))
+            pairs.append({"lang": ln, "model": m})
+            yield {"kind": "pair", "lang": ln, "model": m, "files": ("mal" if k % 3 == 0 else "mar"),
+                   "mfmt": ("json", "yml")[k % 2], "wrap2": k % 4 == 0}
+        for b in range(2 if quick else 10):
+            for via in ("direct", "mar", "mal"):
+                yield {"kind": "procs", "pairs": pairs[b * 10:(b + 1) * 10], "vias": [via], "seeds": seeds}
+    # revisions of a language under the same #id / #version
+    for ln in TINY + MORE:
+        spec, rev = load_spec(ln), load_spec(ln + L.REV_SUFFIX)
+        if rev == spec:
+            continue
+        models = []
+        for k in range(n_rev):
+            m = L.random_model_recipe(spec, rnd, rnd.randint(3, 6), rnd.choice((0.6, 0.9)), attackers=rnd.randint(0, 2))
+            models.append(m)
+            yield {"kind": "pair", "lang": ln + L.REV_SUFFIX, "model": m, "files": "mar", "mfmt": ("json", "yml")[k % 2]}
+        for b in range(1 if quick else 6):
+            seq = []
+            for m in models[b * 8:(b + 1) * 8]:
+                seq += [{"lang": ln, "model": m}, {"lang": ln + L.REV_SUFFIX, "model": m}]
+            for via in ("direct", "mar"):
+                yield {"kind": "procs", "pairs": seq, "vias": [via], "seeds": seeds[:1]}
+
+
 # ---------------------------------------------------------------------------------------------------
 # shared between parent and child
 
@@ -138,6 +192,72 @@ def _generate(lg, model):
         return _ser(g), g
     except Exception as e:
         return "exception: " + type(e).__name__, None
+
+
+def _generate_interleaved(lg, model):
+    """two graphs from the same objects, both generated before either is attached / analysed; the one generated first is
+    attached and analysed first.  Returns (serialised first, serialised second, first graph, second graph)"""
+    from maltoolbox.attackgraph import AttackGraph
+    from maltoolbox.attackgraph.analyzers.apriori import calculate_viability_and_necessity
+    try:
+        ga = AttackGraph(lg, model)
+        gb = AttackGraph(lg, model)
+    except Exception as e:
+        x = "exception: " + type(e).__name__
+        return x, x, None, None
+    out = []
+    for g in (ga, gb):
+        try:
+            g.attach_attackers()
+            calculate_viability_and_necessity(g)
+            out.append(_ser(g))
+        except Exception as e:
+            out.append("exception: " + type(e).__name__)
+    return out[0], out[1], ga, gb
+
+
+def _foreign_refs(g):
+    """descriptions '<kind> <node full name>' of the references held by graph g (its nodes' children / parents /
+    compromised_by, its attackers' entry points / reached steps) to objects that are not nodes / attackers OF g"""
+    own = {id(n) for n in g.nodes}
+    own_att = {id(a) for a in g.attackers}
+    bad = []
+    for n in g.nodes:
+        for c in n.children:
+            if id(c) not in own:
+                bad.append("child " + n.full_name)
+        for p in n.parents:
+            if id(p) not in own:
+                bad.append("parent " + n.full_name)
+        for a in (n.compromised_by or []):
+            if id(a) not in own_att:
+                bad.append("compromised_by " + n.full_name)
+    for a in g.attackers:
+        for n in a.entry_points:
+            if id(n) not in own:
+                bad.append("entry_point " + n.full_name)
+        for n in a.reached_attack_steps:
+            if id(n) not in own:
+                bad.append("reached_step " + n.full_name)
+    return bad
+
+
+def _first_diff(s, t):
+    if s == t:
+        return "equal"
+    if s.startswith("exception") or t.startswith("exception"):
+        return "%s vs %s" % (s[:40], t[:40])
+    a, b = json.loads(s), json.loads(t)
+    for sec in ("attack_steps", "attackers"):
+        for k in list(a[sec]) + [k for k in b[sec] if k not in a[sec]]:
+            x, y = a[sec].get(k), b[sec].get(k)
+            if x != y:
+                if isinstance(x, dict) and isinstance(y, dict):
+                    for f in x:
+                        if x.get(f) != y.get(f):
+                            return "%s[%s].%s: %s vs %s" % (sec, k, f, json.dumps(x.get(f))[:60], json.dumps(y.get(f))[:60])
+                return "%s[%s] present in one only" % (sec, k)
+    return "key order"
 
 
 def _write_lang(spec, via, d):
@@ -215,9 +335,45 @@ def child_main():
     job = json.load(sys.stdin)
     d = os.getcwd()
     out = []
-    for pair in job["pairs"]:
-        out.append(_one(pair, job["via"], d))
+    if job.get("mode") == "isolated":
+        out = _isolated(job["pairs"], job["via"], d)
+    else:
+        for pair in job["pairs"]:
+            out.append(_one(pair, job["via"], d))
     sys.stdout.write(json.dumps(out))
+
+
+def _isolated(pairs, via, d):
+    """every pair in a process state of its own: this (fresh) interpreter imports the package, constructs nothing, and
+    forks once per pair; the fork computes the pair and sends the serialised outcome back through a pipe"""
+    import maltoolbox, maltoolbox.wrappers, maltoolbox.model, maltoolbox.language, maltoolbox.language.compiler
+    import maltoolbox.attackgraph, maltoolbox.attackgraph.analyzers.apriori
+    out = []
+    for pair in pairs:
+        rfd, wfd = os.pipe()
+        sys.stdout.flush()
+        pid = os.fork()
+        if pid == 0:
+            code = 1
+            try:
+                os.close(rfd)
+                res = json.dumps(_one(pair, via, d))
+                with os.fdopen(wfd, "w") as f:
+                    f.write(res)
+                code = 0
+            except BaseException:
+                import traceback
+                traceback.print_exc()
+            finally:
+                os._exit(code)
+        os.close(wfd)
+        with os.fdopen(rfd) as f:
+            data = f.read()
+        _, status = os.waitpid(pid, 0)
+        if status != 0:
+            raise RuntimeError("isolated generation of a pair failed (status %d)" % status)
+        out.append(json.loads(data))
+    return out
 
 
 # ---------------------------------------------------------------------------------------------------
@@ -266,7 +422,26 @@ def _run_pair(recipe, r):
         shared_att = {id(a) for a in g1.attackers} & {id(a) for a in g2.attackers}
         r.check("C16.no-shared-node", not shared and not shared_att, FN_GEN,
                 "two graphs from one model share %d node and %d attacker objects" % (len(shared), len(shared_att)), "shared-node")
-    r.check("C16.model-unchanged", m0 == m1 == m2, FN_GEN, "Model._to_dict() changed by generation/analysis", "model-dict-changed")
+    # two graphs generated back to back from the same objects; attach + analyse the one generated FIRST, then the other
+    FN_ATT = "maltoolbox.attackgraph.attackgraph:AttackGraph.attach_attackers"
+    sA, sB, gA, gB = _generate_interleaved(lg, model)
+    m3 = json.dumps(model._to_dict(), default=str)
+    r.check("C16.same-process", sA == s1, FN_ATT,
+            "the first of two graphs generated back to back from one model, attached and analysed after the second was "
+            "generated, serialises differently from the graph generated alone (%s)" % _first_diff(s1, sA),
+            "interleaved-first-differs")
+    r.check("C16.same-process", sB == s1, FN_ATT,
+            "the second of two graphs generated back to back from one model (attached after the first) serialises "
+            "differently from the graph generated alone (%s)" % _first_diff(s1, sB), "interleaved-second-differs")
+    if gA is not None and gB is not None:
+        fa, fb = _foreign_refs(gA), _foreign_refs(gB)
+        r.check("C16.no-shared-node", not fa and not fb, FN_ATT,
+                "two graphs from one model: the first refers to %s, the second to %s" % (fa[:3], fb[:3]),
+                "refers-to-objects-of-another-graph:" + ",".join(sorted({x.split(" ")[0] for x in fa + fb})))
+        shared2 = {id(n) for n in gA.nodes} & {id(n) for n in gB.nodes}
+        r.check("C16.no-shared-node", not shared2, FN_GEN, "two graphs generated back to back share %d nodes" % len(shared2),
+                "shared-node")
+    r.check("C16.model-unchanged", m0 == m1 == m2 == m3, FN_GEN, "Model._to_dict() changed by generation/analysis", "model-dict-changed")
     r.check("C16.spec-unchanged", spec_ok_1 and spec_ok_2, FN_STEPS,
             "the language specification changed during attack-graph generation (%s)" %
             ("first generation" if not spec_ok_1 else "second generation"), "spec-modified-by-generation")
@@ -304,15 +479,7 @@ def _run_procs(recipe, r):
             here = [_one(p, via, d) for p in recipe["pairs"]]
             outs = {}
             for seed in recipe["seeds"]:
-                env = dict(os.environ)
-                env["PYTHONHASHSEED"] = str(seed)
-                cwd = tempfile.mkdtemp(dir=d)
-                p = subprocess.run([sys.executable, "-u", os.path.abspath(__file__), "--child"],
-                                   input=json.dumps({"pairs": recipe["pairs"], "via": via}).encode(),
-                                   stdout=subprocess.PIPE, stderr=subprocess.PIPE, cwd=cwd, env=env, timeout=600)
-                if p.returncode != 0:
-                    raise RuntimeError("child failed: " + p.stderr.decode()[-400:])
-                outs[seed] = p.stdout
+                outs[seed] = _child(recipe["pairs"], via, seed, d)
             first = outs[recipe["seeds"][0]]
             for seed in recipe["seeds"][1:]:
                 if outs[seed] != first:
@@ -324,6 +491,14 @@ def _run_procs(recipe, r):
                 else:
                     r.check("C16.fresh-process", True, FN_GEN)
             a = json.loads(first)
+            # history: the same pairs, each in a process state of its own (hash seed as for `first`)
+            alone = json.loads(_child(recipe["pairs"], via, recipe["seeds"][0], d, mode="isolated"))
+            bad = [i for i in range(len(a)) if a[i] != alone[i]]
+            langs = sorted({recipe["pairs"][i]["lang"] for i in bad})
+            r.check("C16.fresh-process", not bad, FN_GEN if via == "direct" else FN_WRAP,
+                    "via %s: pairs %s (languages %s) of the batch serialise differently when generated one after the other in one "
+                    "fresh process and when each is generated in a process of its own" % (via, bad[:5], langs),
+                    "depends-on-earlier-generations-in-the-process:" + via)
             bad = [i for i in range(len(a)) if a[i] != here[i]]
             r.check("C16.fresh-process", not bad, FN_GEN if via == "direct" else FN_WRAP,
                     "via %s: pairs %s serialise differently in a fresh process and in this (long-running) process" % (via, bad[:5]),
@@ -336,6 +511,19 @@ def _run_procs(recipe, r):
         r.nontrivial_key = "procs|" + hashlib.sha256(json.dumps(recipe, sort_keys=True).encode()).hexdigest()[:12]
     finally:
         shutil.rmtree(d, ignore_errors=True)
+
+
+def _child(pairs, via, seed, d, mode="sequence"):
+    """stdout (bytes, a JSON list of serialised outcomes) of a fresh interpreter running the pairs through `via`"""
+    env = dict(os.environ)
+    env["PYTHONHASHSEED"] = str(seed)
+    cwd = tempfile.mkdtemp(dir=d)
+    p = subprocess.run([sys.executable, "-u", os.path.abspath(__file__), "--child"],
+                       input=json.dumps({"pairs": pairs, "via": via, "mode": mode}).encode(),
+                       stdout=subprocess.PIPE, stderr=subprocess.PIPE, cwd=cwd, env=env, timeout=600)
+    if p.returncode != 0:
+        raise RuntimeError("child failed: " + p.stderr.decode()[-400:])
+    return p.stdout
 
 
 def run_case(recipe):
